@@ -103,6 +103,8 @@ def run(chk) -> None:
     chk.rule("R10i", "a source range counts as 'past the end of the file' only from the end of the last raw slice: the bound of the early `return []` of raw_slices_spanning_source_slice is that slice's end on every path")
     _r10h(chk, repo)
     _r10i(chk, repo)
+    chk.rule("R10j", "the text JJ01 writes back is tag_pre + ws_pre' + inner + ws_post' + tag_post: the five components unpacked from _get_whitespace_ends, in that order, the two whitespace components replaced only by their own fix (`fix or component`), read through locals")
+    _r10j(chk, repo)
 
 
 def _r10h(chk, repo) -> None:
@@ -155,6 +157,55 @@ def _r10h(chk, repo) -> None:
         "the other one is treated as part of the expression and re-spaced (`{% if x +%}` -> `{% if x + %}`, which no longer renders)",
         detail="JJ01: '+' and '-' are modifiers on both sides of a tag",
     )
+
+
+def _r10j(chk, repo) -> None:
+    """JJ01 rebuilds a tag from its own five parts, in order; a whitespace part gives way only to its own fix."""
+    f = repo.fn("src/sqlfluff/rules/jinja/JJ01.py", "Rule_JJ01._eval")
+    cfg = cfg_of(f)
+    sfx = [c for c in calls_in(f) if last_attr(c) == "SourceFix" and c.args]
+    if not sfx:
+        raise AnalysisError("R10j: JJ01._eval no longer builds a SourceFix (anchor refactored)")
+
+    def comp(e, at):
+        """Index of the _get_whitespace_ends component that ``e`` is (a plain read of the unpacked name), else None."""
+        if not isinstance(e, ast.Name):
+            return None
+        os_ = origins(cfg, e, at)
+        if len(os_) == 1 and os_[0].kind == "expr" and isinstance(os_[0].expr, ast.Call) and last_attr(os_[0].expr) == "_get_whitespace_ends" and len(os_[0].path) == 1:
+            return os_[0].path[0]
+        return None
+
+    def flat(e, at, depth=0):
+        if isinstance(e, ast.BinOp) and isinstance(e.op, ast.Add):
+            return flat(e.left, at, depth) + flat(e.right, at, depth)
+        if isinstance(e, ast.Name) and comp(e, at) is None and depth < 4:
+            os_ = origins(cfg, e, at)
+            if len(os_) == 1 and os_[0].kind == "expr" and isinstance(os_[0].expr, (ast.BinOp, ast.BoolOp, ast.Name, ast.IfExp)) and not os_[0].path:
+                return flat(os_[0].expr, os_[0].stmt, depth + 1)
+        return [(e, at)]
+
+    n = 0
+    for c in sfx:
+        st = cfg.stmt_of(c)
+        parts = flat(c.args[0], st)
+        n += 1
+        got = []
+        for e, at in parts:
+            if isinstance(e, ast.BoolOp) and isinstance(e.op, ast.Or) and len(e.values) == 2:
+                got.append(("or", comp(e.values[1], at), e))
+            elif isinstance(e, ast.IfExp):
+                got.append(("or", comp(e.orelse, at) if comp(e.orelse, at) is not None else comp(e.body, at), e))
+            else:
+                got.append(("is", comp(e, at), e))
+        idxs = [g[1] for g in got]
+        chk.require(
+            idxs == [0, 1, 2, 3, 4] and got[0][0] == got[2][0] == got[4][0] == "is", "R10j", c,
+            f"the replacement text of the JJ01 source fix is built from the parts {idxs} of _get_whitespace_ends (wanted 0..4 in order, the tag ends and the inner text unchanged, each "
+            "whitespace part falling back to itself): the tag is rebuilt with a part missing, doubled or swapped, so its content changes or the next run changes it again",
+            detail="JJ01: tag rebuilt from its own five parts in order",
+        )
+    chk.count("R10j.source_fix_sites", n)
 
 
 def _r10i(chk, repo) -> None:
@@ -1014,6 +1065,18 @@ _KEEP_IF_FLAG = (
 )
 
 VARIANTS = [
+    Variant(
+        "jj01-trailing-space-falls-back-to-the-leading-one", "src/sqlfluff/rules/jinja/JJ01.py",
+        "                tag_pre + (pre_fix or ws_pre) + inner + (post_fix or ws_post) + tag_post\n",
+        "                tag_pre + (pre_fix or ws_pre) + inner + (post_fix or ws_pre) + tag_post\n",
+        "R10j", "Rule_JJ01._eval", "seeded C17-8: `{{foo }}` becomes `{{ foo}}`, and the next run changes it again",
+    ),
+    Variant(
+        "quiet-jj01-tag-rebuilt-through-named-locals", "src/sqlfluff/rules/jinja/JJ01.py",
+        "            fixed = (\n                tag_pre + (pre_fix or ws_pre) + inner + (post_fix or ws_post) + tag_post\n            )\n",
+        "            lead_ws = pre_fix or ws_pre\n            trail_ws = post_fix or ws_post\n            fixed = tag_pre + lead_ws + inner + trail_ws + tag_post\n",
+        "QUIET", None, "the refactor of seeded C17-8 done right",
+    ),
     Variant(
         "jj01-closing-plus-is-not-a-modifier", "src/sqlfluff/rules/jinja/JJ01.py",
         "        if main and main[-1] in modifier_chars:\n",
